@@ -117,7 +117,7 @@ for label, nv, f in catalog(req["tier"]) + catalog(req["tier"], labels="str")[::
             cols = [c for c in range(1 << n) if all(((c >> (n - 1 - a)) & 1) == 0 for a in aux if aw[a] in rr.extra_zero)
                     and (dom is None or dom([(c >> (n - 1 - i)) & 1 for i in range(kop)]))]
             brs = branches(ex)
-            phis = []
+            phis, cells = [], []
             for outcome, gates in brs:
                 c0 = cols[0]
                 v = [Sym.of(1 if i == c0 else 0) for i in range(1 << n)]
@@ -128,12 +128,30 @@ for label, nv, f in catalog(req["tier"]) + catalog(req["tier"], labels="str")[::
                 inv = U[r][cop].inv()
                 phi = [v[(r << len(aux)) | a] * inv for a in range(1 << len(aux))]
                 phis.append(phi)
-                V = [[phi[i] if j == 0 else Sym.of(0) for j in range(1 << len(aux))] for i in range(1 << len(aux))]
+                cells.append((outcome, gates, phi))
+            # auxiliary-wire clause of the property: the auxiliary wires must end in ONE state, the same on every
+            # outcome branch (only the scalar c_b = amplitude * phase may depend on b).  The reference ray is the
+            # auxiliary state of the first branch of non-zero weight; every branch is then stated against
+            # U (x) (c_b * a_ref), so a branch-dependent auxiliary state makes the Coq obligation of that branch fail.
+            ref = next((phi for phi in phis if any(x.t for x in phi)), None)
+            kref = next((k for k, x in enumerate(ref) if x.t), None) if ref is not None else None
+            it["aux_states"] = []
+            for outcome, gates, phi in cells:
+                if ref is None:
+                    exp_phi, same = phi, True
+                else:
+                    cb = phi[kref] * ref[kref].inv()
+                    exp_phi = [cb * x for x in ref]
+                    same = all(not (a - b).t for a, b in zip(phi, exp_phi))
+                nrm = sum(abs(x.num([])) ** 2 for x in phi) ** 0.5
+                it["aux_states"].append({"outcome": list(outcome), "same_as_reference_branch": same,
+                                         "aux_state": [str(np.round(complex(x.num([])) / nrm, 6)) for x in phi] if nrm > 1e-12 else None})
+                V = [[exp_phi[i] if j == 0 else Sym.of(0) for j in range(1 << len(aux))] for i in range(1 << len(aux))]
                 bc = "[" + ";\n  ".join(g_gate(w, S) for w, S in gates) + "]"
                 exp = "[" + g_gate(list(range(kop)), U) + ";\n  " + g_gate(aux, V) + "]"
                 name = f"br_{len(items)}_{''.join(map(str, outcome))}"
                 oblig.append({"name": name, "stmt": f"circ_cols_eq 4%Z {n}%nat\n  {bc}\n  {exp}\n  {g_nats(cols)} = true",
-                              "label": label, "rule": ex.rule, "outcome": list(outcome)})
+                              "label": label, "rule": ex.rule, "outcome": list(outcome), "aux_same": same})
             pl = "[" + "; ".join("[" + "; ".join(x.gallina() for x in phi) + "]" for phi in phis) + "]"
             oblig.append({"name": f"prob_{len(items)}", "stmt": f"probs_total_one 4%Z {pl} = true", "label": label, "rule": ex.rule, "outcome": None})
             it["branches"] = len(brs)
